@@ -14,15 +14,18 @@ AP = {'ap_aw_load': r'^std::atomic<cocls::awaiter\*>::load\(std::memory_order\) 
       'ap_fu_assign': r'^std::atomic<cocls::future<int>\*>::operator=\(cocls::future<int>\*\)$'}
 AP_TYPES = {'ATOM_AW': 'std::atomic<cocls::awaiter *>', 'ATOM_FU': 'std::atomic<cocls::future<int> *>', 'AWT': 'cocls::awaiter', 'FUT': 'cocls::future<int>'}
 D_GLOBALS = {'FRAME_KIND': 'g_frame_kind', 'G_OBS': 'g_obs', 'G_NOBS': 'g_nobs', 'G_END': 'g_end', 'G_EXC_N': 'g_exc_n', 'G_EXC_AT': 'g_exc_at', 'G_EXC_VAL': 'g_exc_val',
-             'G_NMV': 'g_nmv', 'G_OTHER_EXC': 'g_other_exc', 'G_CTOR': 'g_ctor', 'G_DTOR': 'g_dtor', 'G_ARGS': 'g_args', 'G_NARGS': 'g_nargs', 'G_PENDING_SEEN': 'g_pending_seen'}
+             'G_NMV': 'g_nmv', 'G_OTHER_EXC': 'g_other_exc', 'G_CTOR': 'g_ctor', 'G_DTOR': 'g_dtor', 'G_ARGS': 'g_args', 'G_NARGS': 'g_nargs', 'G_PENDING_SEEN': 'g_pending_seen',
+             'G_FIN_DONE': 'g_fin_done', 'G_FIN_BOOL': 'g_fin_bool', 'G_AFTER_END': 'g_after_end', 'G_AFTER_VAL': 'g_after_val', 'G_CO_FRAMES': 'g_co_frames'}
 D_BOUNDARY = [r'^std::deque<std::__n4861::coroutine_handle<void>', WAIT, NOTIFY] + list(AP.values())
 D_LIBS = ['rt_core.c', 'rt_atomic_seq.c', 'model_atomic_ptr_api.c', 'model_dq_drive.c', 'model_heap_frames.c']
-FK = {'vals': 'X(1, S_gen_vals_Frame)', 'throw': 'X(2, S_gen_throw_Frame)', 'arg': 'X(3, S_gen_arg_Frame)', 'await': 'X(4, S_gen_await_Frame)', 'consumer': 'X(5, S_co_consumer_Frame)'}
+FK = {'vals': 'X(1, S_gen_vals_Frame)', 'throw': 'X(2, S_gen_throw_Frame)', 'arg': 'X(3, S_gen_arg_Frame)', 'await': 'X(4, S_gen_await_Frame)', 'consumer': 'X(5, S_co_consumer_Frame)', 'costep': 'X(6, S_co_step_Frame)'}
 def drive(name, what, frames=('vals',), unwind=8, timeout=150, **kw):
     FRAMES = 'CV_FRAME_KINDS ' + ' '.join(FK[f] for f in frames)
     d = dict(name='drive_' + name, driver=DRV, roots=['^drive_%s$' % name], names={}, names_opt=dict(AP, ab_wait=WAIT, ab_notify=NOTIFY), types=dict(D_TYPES, **AP_TYPES), globals=D_GLOBALS,
              boundary=D_BOUNDARY, lib=D_LIBS, spec=['C13/drive_atomics.h', 'C13/h_drive.c'], harness='h_drive', defines=['CV_NO_HEAP_PRIMS 1', FRAMES, 'DRIVE_%s 1' % name],
              unwind=unwind, object_bits=12, kind='bounded', timeout=timeout, bounded=what, under_contract=[])
+    d['defines'] += kw.pop('defines_extra', [])
+    if 'unit_name' in kw: d['name'] = kw.pop('unit_name')
     d.update(kw)
     return d
 UNITS = [
@@ -31,7 +34,18 @@ UNITS = [
     drive('iter_postfix', 'k <= 3 symbolic values; consumer: explicit iterators with postfix increment and operator->'),
     drive('future', 'k <= 3 symbolic values; consumer: calls the generator, reads each future<int>'),
     drive('mixed', 'k <= 3 symbolic values; every sequence of 4 steps, each by next()/value(), call-to-future or a fresh iterator'),
-    drive('throw', 'body throws a symbolic int after pos <= 3 values; each of the three synchronous styles', frames=('throw',)),
+    # after-exception oracle restated from the property (audit E / W1): replaces the former drive 'throw', whose clauses about the time after
+    # the exception had been copied from the code.  Fails on a library that never marks a generator finished once its body threw.
+    drive('after_exception', 'body throws a symbolic int after pos <= 3 values; synchronous styles next()/value(), call-to-future, fresh iterator; the consumer samples done() / operator bool and asks twice more after the exception',
+          frames=('throw', 'costep'), unwind=8, timeout=300, defines_extra=['AE_STYLE_LO 0', 'AE_STYLE_HI 2'], unit_name='drive_after_exception_sync',
+          replay=dict(src='c13_after_exception.cpp', mode='after_exception', flags=['-g'])),
+    drive('after_exception', 'body throws a symbolic int after pos <= 3 values; consumer coroutine: co_await next() / co_await of the call future, one small coroutine per step; samples done() / operator bool and asks twice more after the exception',
+          frames=('throw', 'costep'), unwind=8, timeout=300, defines_extra=['AE_STYLE_LO 3', 'AE_STYLE_HI 4'], unit_name='drive_after_exception_co',
+          replay=dict(src='c13_after_exception.cpp', mode='after_exception', flags=['-g'])),
+    drive('mixed5', 'k <= 3 symbolic values; every sequence of 4 steps over FIVE styles: next()/value(), call-to-future, fresh iterator, co_await next(), co_await of the call future (one small consumer coroutine per co_await step)',
+          frames=('vals', 'costep'), unwind=8, timeout=400),
+    drive('throw_mixed', 'body throws a symbolic int after pos <= 3 values; every step in a style of its own among the five (the exception is met under co_await too)',
+          frames=('throw', 'costep'), unwind=8, timeout=400, replay=dict(src='c13_after_exception.cpp', mode='after_exception', flags=['-g'])),
     drive('arg_next', 'generator<int,int>, k <= 3 values, symbolic arguments; next(arg)/value()', frames=('arg',)),
     drive('arg_future', 'generator<int,int>, k <= 3 values, symbolic arguments; call-to-future with rvalue arguments', frames=('arg',)),
     drive('early', 'k <= 3 values, generator destroyed after stop <= 4 steps (before the first activation / parked at a yield / finished)'),
@@ -105,6 +119,8 @@ def cu(name, alias, arg='void', uses=(), fnptr=(), lam=False, **kw):
     if pt: d['ptypes'] = pt
     d.update(kw)
     return d
+# native replay of the after-exception clause (audit E / W1): all styles x throw positions when no input is given
+AE_REPLAY = dict(src='c13_after_exception.cpp', mode='after_exception', flags=['-g'])
 CONTRACT_UNITS = [
     cu('yield_value_ref', 'pt_yield_value_ref'), cu('yield_value_rref', 'pt_yield_value_rref'),
     cu('yield_value_ref', 'pt_yield_value_ref', 'int'), cu('yield_value_null', 'pt_yield_value_null', 'int'),
@@ -117,13 +133,13 @@ CONTRACT_UNITS = [
     cu('nf_lambda', 'nf_lambda', uses=('chpt_resume',), fnptr=('RESUME_FN_FUTURE',), lam=True, object_bits=10), cu('nf_lambda', 'nf_lambda', 'int', uses=('chpt_resume',), fnptr=('RESUME_FN_FUTURE',), lam=True, object_bits=10),
     cu('next_future', 'pt_next_future', uses=('nf_lambda_stub', 'pr_dtor_stub'), lam=True),
     cu('unblock_sync', 'pt_unblock_sync', uses=('ab_notify',)),
-    cu('unblock_future', 'pt_unblock_future', uses=('pr_call_drop', 'pr_call_exc', 'pr_call_val', 'sp_suspend_now')),
+    cu('unblock_future', 'pt_unblock_future', uses=('pr_call_drop', 'pr_call_exc', 'pr_call_val', 'sp_suspend_now'), replay=AE_REPLAY),
     cu('resume_fn_sync', 'pt_resume_fn_sync', uses=('ab_notify',)), cu('resume_fn_future', 'pt_resume_fn_future', uses=('pt_unblock_future_stub',)),
     cu('pt_done', 'pt_done'), cu('pt_value', 'pt_value'), cu('pt_exception', 'pt_exception'),
     cu('na_bool', 'na_bool', uses=('pt_next_sync_stub',)), cu('na_not', 'na_not', uses=('pt_next_sync_stub',)), cu('na_bool', 'na_bool', 'int', uses=('pt_next_sync_stub',)),
     cu('na_await_ready', 'na_await_ready'), cu('na_await_suspend', 'na_await_suspend', uses=('pt_next_async_stub',)), cu('na_await_resume', 'na_await_resume'),
     cu('na_subscribe', 'na_subscribe', uses=('pt_next_async_stub', 'chv_resume')),
-    cu('gen_next', 'gen_next'), cu('gen_next', 'gen_next', 'int'), cu('gen_value', 'gen_value'),
+    cu('gen_next', 'gen_next'), cu('gen_next', 'gen_next', 'int'), cu('gen_value', 'gen_value', replay=AE_REPLAY),
     cu('gen_call', 'gen_call', uses=('pt_next_future_stub',)), cu('gen_call', 'gen_call', 'int', uses=('pt_next_future_stub',)),
     cu('gen_done', 'gen_done'), cu('gen_bool', 'gen_bool'),
     cu('gen_begin', 'gen_begin', uses=('na_bool_stub',), under_contract=['cocls::generator<int, void>::begin()']), cu('gen_end', 'gen_end', under_contract=['cocls::generator<int, void>::end()']), cu('gen_deleter', 'gen_deleter', uses=('chpt_destroy',)),
@@ -135,8 +151,8 @@ UNITS = CONTRACT_UNITS + UNITS
 
 META = dict(
     level='proof',
-    level_text='PROVED (contracts, unbounded): every record-keeping function of generator<int> and generator<int,int> - promise_type::yield_value (3 overloads), yield_suspend::await_suspend / await_resume, yield_null::await_resume, final_suspend, return_void, unhandled_exception, set_arg, next_async, next_sync, the functor of next_future, next_future, unblock_sync, unblock_future, resume_fn_sync, resume_fn_future, done, value, exception; next_awt::operator bool / operator! / await_ready / await_suspend / await_resume / subscribe; generator::next / value / operator() / done / operator bool / begin / end / deleter; every generator_iterator member - satisfies a contract taken from the property over the hand-over record {_caller, _internal, _arg, _ret, _exp, _done, _block, _awaiting}: the request is cleared before exactly the asker is resumed exactly once and whatever the asker made ready is continued or scheduled, none lost (yield_suspend::await_suspend); value() returns the object of the last co_yield or rethrows the very exception stored; unblock_future resolves the pending call exactly once with drop / that exception / that value (exception before value); the argument pointer the body reads is the one installed by the resuming call; next_sync completes the record before the body runs, resumes it once, waits with acquire order and returns only after the body handed back; operator bool steps at most once per next() and never on a finished generator; it++ hands out the value read before the step; nothing allocates (C20). BOUNDED (drives of the really lowered coroutines, never counted as proof): for scripted bodies with k <= 3 symbolic values, optional throw at any position, optional argument, optional co_await of a ready or a pending future, and the consumer styles next()/value(), range-for, explicit iterators, call-to-future, every sequence of 4 mixed steps, co_await next() and co_await of the call future from a consumer coroutine: observed sequence == yielded sequence, exactly one end indication, exception exactly at its position, argument echo, locals destroyed exactly once when the generator is dropped before the first activation / parked at a yield / finished, allocations == frames and all freed.',
-    level_note='The quantifier "for every body script and every sequence of access styles" is covered by the contracts only function by function (each contract is the inductive step of the record invariant; no machine-checked history lemma composes them) and by the drives only up to the stated bounds. Trusted: abstract callees (coroutine resumption/destruction, resumption of the asking awaiter, promise resolution, suspend_now, atomic<bool>::wait/notify_all, neighbouring members in forwarder units) as recording stubs with arbitrary admissible results; std::atomic<T*> members read sequentially at member-function level (the record is owned by one thread at a time; release/acquire of the hand-over itself is C03); in drives additionally the FIFO ring for the ready queue, typed frame allocation, compare_exchange_weak without spurious failure. Not covered: bodies completed by ANOTHER thread while the consumer blocks in next_sync (only through the wait primitive of the next_sync contract: a blocking wait ends when the flag is raised), memory orders of _block beyond "wait uses acquire", value types other than int, generator_iterator::storage::operator* / operator-> (do not compile when instantiated: const member returning a non-const reference, so `*it++` is unusable). One obligation fails on the unchanged tree: next_async registers the asker before it checks for a finished coroutine and leaves _caller set when it throws no_more_values_exception (replay/c13_next_async_refused.cpp, specs/C13/fix_next_async.diff).',
+    level_text='PROVED (contracts, unbounded): every record-keeping function of generator<int> and generator<int,int> - promise_type::yield_value (3 overloads), yield_suspend::await_suspend / await_resume, yield_null::await_resume, final_suspend, return_void, unhandled_exception, set_arg, next_async, next_sync, the functor of next_future, next_future, unblock_sync, unblock_future, resume_fn_sync, resume_fn_future, done, value, exception; next_awt::operator bool / operator! / await_ready / await_suspend / await_resume / subscribe; generator::next / value / operator() / done / operator bool / begin / end / deleter; every generator_iterator member - satisfies a contract taken from the property over the hand-over record {_caller, _internal, _arg, _ret, _exp, _done, _block, _awaiting}: the request is cleared before exactly the asker is resumed exactly once and whatever the asker made ready is continued or scheduled, none lost (yield_suspend::await_suspend); value() returns the object of the last co_yield or rethrows the very exception stored; unblock_future resolves the pending call exactly once with drop / that exception / that value (exception before value); handing the stored exception to the consumer (the rethrow in value(), the resolution of the call future) marks the record finished - for the call future before the consumer can look - while unhandled_exception itself must not (the exception would be dropped instead of surfacing), and a value or an end leaves the end marker alone (after-exception clause, see level_note); the argument pointer the body reads is the one installed by the resuming call; next_sync completes the record before the body runs, resumes it once, waits with acquire order and returns only after the body handed back; operator bool steps at most once per next() and never on a finished generator; it++ hands out the value read before the step; nothing allocates (C20). BOUNDED (drives of the really lowered coroutines, never counted as proof): for scripted bodies with k <= 3 symbolic values, optional throw at any position, optional argument, optional co_await of a ready or a pending future, and the consumer styles next()/value(), range-for, explicit iterators, call-to-future, co_await next() and co_await of the call future from a consumer coroutine, every sequence of 4 steps mixed from the three synchronous styles and from all five styles (each co_await step a small consumer coroutine of its own), a throwing body met by a different style at every step (co_await styles included): observed sequence == yielded sequence, exactly one end indication, exception exactly once and exactly at its position, after the exception done() true / operator bool false and asking again (twice) gives the end indication of the style, argument echo, locals destroyed exactly once when the generator is dropped before the first activation / parked at a yield / finished, allocations == frames and all freed.',
+    level_note='The quantifier "for every body script and every sequence of access styles" is covered by the contracts only function by function (each contract is the inductive step of the record invariant; no machine-checked history lemma composes them) and by the drives only up to the stated bounds. Trusted: abstract callees (coroutine resumption/destruction, resumption of the asking awaiter, promise resolution, suspend_now, atomic<bool>::wait/notify_all, neighbouring members in forwarder units) as recording stubs with arbitrary admissible results; std::atomic<T*> members read sequentially at member-function level (the record is owned by one thread at a time; release/acquire of the hand-over itself is C03); in drives additionally the FIFO ring for the ready queue, typed frame allocation, compare_exchange_weak without spurious failure. Not covered: bodies completed by ANOTHER thread while the consumer blocks in next_sync (only through the wait primitive of the next_sync contract: a blocking wait ends when the flag is raised), memory orders of _block beyond "wait uses acquire", value types other than int, generator_iterator::storage::operator* / operator-> (do not compile when instantiated: const member returning a non-const reference, so `*it++` is unusable). AFTER-EXCEPTION CLAUSE (restated from the statement after the audit of group E, item W1; the former drive accepted whatever the code did): the statement promises "exactly the sequence of values ... followed by a single end-of-sequence indication, whichever access style it uses or mixes" and "an exception escaping the body surfaces to the consumer at exactly that position". For a body that throws after k values the observation is therefore: the k values, the exception (once, at position k), and with it the sequence is over - the body can produce nothing more. Reading adopted: from the moment the exception has surfaced the generator must behave as one whose end has been reached - done() true, operator bool false, and asking again gives the end-of-sequence indication of the style used (next() / co_await next() false, a fresh iterator == end()), every time, without an exception and without a value; for the call styles the library\'s answer to calling a finished generator (a future without value or no_more_values_exception) is accepted, as in drive `future`. Reading rejected: "the exception is itself the end indication, any later access may throw no_more_values_exception" - the statement asks for the end indication in whichever style, the styles next() / iterator / co_await next() have an in-band one that the library documents (next_awt: "false - next item is not available"; generator::done(): "returns true, if the generator is finished"), and a consumer that handles the failed item and goes on reading (`for(;;) try { if (!g.next()) break; use(g.value()); } catch (...) {}`) terminates only if it gets it: on the unchanged library it receives no_more_values_exception for ever while done() stays false and operator bool true for a generator that is finished. On the unchanged tree this clause FAILS (genuine defect, native replay replay/c13_after_exception.cpp, all 5 styles x 4 throw positions): units gen_value (postcondition: rethrow ==> finished), unblock_future (postcondition: exception handed to the call future ==> finished, already at the resolution), drive_after_exception_sync and drive_after_exception_co (two assertions each, prefix C13-FINDING-after-exception). Repair: specs/C13/fix_after_exception.diff (generator.h: the end marker is set when the stored exception is handed over - in generator::value() before the rethrow and in unblock_future before the promise is resolved; unhandled_exception is left alone: marking the end there makes every style drop the exception, which the drives and the assigns clause of unit unhandled_exception reject). With the repair all 68 units pass and the 15 library tests pass. The earlier finding on next_async (request left behind when refused) is repaired in /repo (9bcf8c0).',
     technique='CBMC 6.11 code contracts (requires/ensures/assigns) enforced per function via goto-instrument --dfcc on the C translation of clang IR of generator.h / iterator.h, abstract callees as recording stubs; plus bounded symbolic execution (plain cbmc, unwinding assertions) of driver scenarios in which clang has lowered generator bodies and consumer coroutines to ramp/resume/destroy functions and ir2c devirtualises coroutine_handle::resume()',
     trusted_base=['abstract callees recorded in ghost state (specs/C13/g_spec.h): coroutine_handle<promise_type>::resume/destroy, coroutine_handle<>::resume, awaiter::resume, suspend_point<void>::suspend_now, promise<int>::operator() (3 instantiations), promise<int>::~promise, std::atomic<bool>::wait / notify_all',
                   'std::atomic<T*> load / exchange / compare_exchange_weak / operator= read sequentially at member-function level, no spurious CAS failure (lib/model_atomic_ptr_api.c)',
@@ -145,7 +161,7 @@ META = dict(
     assumptions=['contract units: the promise lives in a coroutine frame laid out as the ABI prescribes (resume slot, destroy slot, promise at offset 16; NULL resume slot = final suspend point)',
                  'hand-over invariant assumed by unblock_future: the record describes an end, an exception or a value (established by yield_value / final_suspend + return_void / unhandled_exception, each proved)',
                  'next_sync / next_future / next_async preconditions: the generator is idle (_caller == NULL, no promise parked) - the documented "Generator is busy" contract of the library',
-                 'drives: bounded(k <= 3 values, <= 4 consumer steps past them, one generator, one consumer coroutine, one awaited future); single thread'],
+                 'drives: bounded(k <= 3 values, <= 4 consumer steps past them, one generator, one consumer coroutine or one small consumer coroutine per co_await step, one awaited future); single thread; a throw under co_await is covered for synchronous bodies only (a body that suspends on a pending awaitable and then throws is not driven)'],
     explanation='see level_text')
 
 # units whose contracts carry the no-allocation clause of C20 (stepping a generator: yield, hand-back, the three ways to ask, iterator step)
